@@ -172,22 +172,44 @@ func runSST(args []string) error {
 		return -2
 	}
 	// returns the drained pairs and an error text ("" = clean end)
+	ndrain := 0
 	drain := func(it sstables.SSTableIteratorI, err error) ([][]any, string) {
 		out := [][]any{}
 		if err != nil {
 			return out, "err:" + err.Error()
 		}
+		// every other iteration COLLECTS what Next hands out and looks at it again when the iteration is over (what a caller that gathers a scan
+		// into a slice does): an entry that no longer reads as it did when it was returned is recorded as it reads now.  The other iterations
+		// scribble on every returned slice at once (the library must not go on using it).
+		ndrain++
+		retain := ndrain%2 == 0
+		var keptK, keptV [][]byte
+		late := func() {
+			for i := range keptK {
+				if i < len(out) {
+					out[i] = []any{rk(keptK[i]), vt(keptV[i])}
+				}
+				pokeReturned(keptK[i])
+				pokeReturned(keptV[i])
+			}
+		}
 		for {
 			k, v, err := it.Next()
 			if errors.Is(err, sstables.Done) {
+				late()
 				return out, ""
 			}
 			if err != nil {
+				late()
 				return out, "err:" + err.Error()
 			}
 			out = append(out, []any{rk(k), vt(v)})
-			pokeReturned(k)
-			pokeReturned(v)
+			if retain {
+				keptK, keptV = append(keptK, k), append(keptV, v)
+			} else {
+				pokeReturned(k)
+				pokeReturned(v)
+			}
 			if len(out) > 100000 {
 				return out, "err:iterator does not end"
 			}
